@@ -96,4 +96,66 @@ pub(crate) mod kani_verif {
     h!(c07_ots_sign_n16_w4, check_sign::<16, 64, 5>(4), 70);
     // @h name=c07_ots_sign_n24_w8 props=C07,C12,C01,C02 tier=thorough kind=proved cfg=w8 timeout=3000 funcs=LmotsSignature::sign;LmotsSignature::sign_core;LmotsSignature::calculate_signature contract="same, n=24, w=8 (p=26), empty message"
     h!(c07_ots_sign_n24_w8, check_sign::<24, 64, 0>(8), 70);
+
+    // ------------------------------------------------------------------ C15: fast-verify message hash
+    // optimize_message_hash (randomizer search on scoped threads, OsRng) is replaced by "write arbitrary bytes into the
+    // slice it was given": a sound abstraction of every schedule and RNG draw, because the function only receives
+    // shared borrows plus `&mut [u8]` to the trailer (safe Rust).
+    #[cfg(feature = "fast_verify")]
+    pub fn stub_optimize<H: HashChain>(_hasher: &H, _lmots_parameter: &LmotsParameter<H>, randomizer: &mut [u8], _message: Option<&[u8]>) {
+        let mut i = 0;
+        while i < randomizer.len() {
+            randomizer[i] = kani::any();
+            i += 1;
+        }
+    }
+    #[cfg(feature = "fast_verify")]
+    fn check_fast_sign<const N: usize, const M: usize>(w: u8) {
+        type R<const N: usize> = RecHashC<N, 96>;
+        R::<N>::reset_log();
+        let p = alg(w).construct_parameter::<R<N>>().unwrap();
+        let n_chains = p.get_num_winternitz_chains() as usize;
+        let id: [u8; 16] = kani::any();
+        let q: [u8; 4] = kani::any();
+        let mut key = ArrayVec::new();
+        let mut i = 0;
+        while i < n_chains {
+            key.push(ArrayVec::from_array_len([0u8; 32], N));
+            i += 1;
+        }
+        let sk = LmotsPrivateKey::<R<N>>::new(id, q, key, p);
+        let cb: [u8; 32] = kani::any();
+        let mut c = ArrayVec::from_array_len(cb, N);
+        let mut msg: [u8; M] = kani::any();
+        let mut j = M - N;
+        while j < M {
+            msg[j] = 0;
+            j += 1;
+        }
+        let before = msg;
+        let sig = LmotsSignature::sign_fast_verify(&sk, &mut c, None, Some(&mut msg));
+        assert!(msg[..M - N] == before[..M - N], "nothing but the last n bytes of the message changes");
+        assert!(c.as_slice() == &cb[..N] && sig.signature_randomizer.as_slice() == &cb[..N], "the signature randomizer is the seed-derived one");
+        // the signature is the ordinary signature of the returned message: same message hash pre-image
+        let mut pre = [0u8; 96];
+        pre[..16].copy_from_slice(&id);
+        pre[16..20].copy_from_slice(&q);
+        pre[20] = 0x81;
+        pre[21] = 0x81;
+        pre[22..22 + N].copy_from_slice(&cb[..N]);
+        pre[22 + N..22 + N + M].copy_from_slice(&msg);
+        assert!(R::<N>::calls() == 1 && R::<N>::pre_is(0, &pre[..22 + N + M]), "Q = H(I || q || D_MESG || C || returned message)");
+        assert!(R::<N>::chain_calls() == n_chains && sig.signature_data.len() == n_chains, "then the ordinary p chains");
+        kani::cover!(msg[M - 1] != 0, "trailer written");
+    }
+    // @h name=c15_fast_sign_n16_w8 props=C15 tier=quick kind=proved cfg=fastverify timeout=2400 funcs=LmotsSignature::sign_fast_verify;LmotsSignature::calculate_message_hash_fast_verify;LmotsSignature::sign_core contract="sign_fast_verify on a mutable message: only the last n bytes change, C unchanged, and the message hash is H(I||q||D_MESG||C||returned message) followed by the ordinary chains (= ordinary signature of the returned message); randomizer search abstracted to arbitrary trailer bytes (all schedules); n=16, w=8, 24-byte message"
+    #[cfg(feature = "fast_verify")]
+    #[kani::proof]
+    #[kani::stub(zeroize::optimization_barrier, no_barrier)]
+    #[kani::stub(<[u8; 32] as tinyvec::Array>::default, fast_default)]
+    #[kani::stub(crate::lm_ots::signing::optimize_message_hash, stub_optimize)]
+    #[kani::unwind(100)]
+    fn c15_fast_sign_n16_w8() {
+        check_fast_sign::<16, 24>(8);
+    }
 }
